@@ -220,11 +220,22 @@ def world(ctx, rnd, T):
             I = wl.inputs()
         np.random.seed(rnd.randrange(1000))
         trace, requests, recent = [], [], []
-        for step in range(nlen):
+        # systematic prologue (first history only): every function of the table under two sampling configurations in turn, re-seeded,
+        # and later repeated by the fresh interpreter in the opposite order - state that survives a reconfiguration (memoised designs,
+        # grids, densities) shows up as a memo conflict whatever the random part of the history happens to contain
+        plan = []
+        if tr == 0:
+            for cfgp in ((16, 1e9, None), (8, 1e9, None), (8, 2.5e9, 64)):
+                plan += [("gv", cfgp)] + [("call", nm) for nm in sorted(F)]
+        forced = list(plan)
+        for step in range(nlen + len(plan)):
             gb, rb = iid(wl.gv_raw()), iid(wl.rng_raw())
             u = rnd.random()
+            todo = forced.pop(0) if forced else None
+            if todo is not None:
+                u = 0.0 if todo[0] == "gv" else 0.2
             if u < 0.14:
-                cfg = (rnd.choice([8, 16]), rnd.choice([1e9, 2.5e9]), rnd.choice([None, 64]))
+                cfg = todo[1] if todo is not None else (rnd.choice([8, 16]), rnd.choice([1e9, 2.5e9]), rnd.choice([None, 64]))
                 rs = np.random.get_state()
                 wl.configure(*cfg)
                 with warnings.catch_warnings():
@@ -241,7 +252,7 @@ def world(ctx, rnd, T):
                 trace.append({"kind": "seed", "f": f"seed{s}", "args": 0, "argsAfter": 0, "gvBefore": gb, "gvAfter": iid(wl.gv_raw()),
                               "rngBefore": rb, "rngAfter": iid(wl.rng_raw()), "res": 0, "alias": False})
                 gb, rb = iid(wl.gv_raw()), iid(wl.rng_raw())
-            name = rnd.choice(recent) if (recent and rnd.random() < 0.3) else rnd.choice(names)
+            name = todo[1] if todo is not None else (rnd.choice(recent) if (recent and rnd.random() < 0.3) else rnd.choice(names))
             recent = (recent + [name])[-6:]
             build, fn, _ = F[name]
             args = build(I)
@@ -273,8 +284,10 @@ def world(ctx, rnd, T):
         # the same calls once more in a FRESH interpreter (no call history), in another order: "deterministic blocks give
         # identical results whatever was called before"; the events join the same trace after a boundary marker, so a
         # different result for the same (function, arguments, gv[, RNG state]) is a memo conflict in WorldTrace
-        rnd.shuffle(requests)
-        requests = requests[: (60 if T else 40)]
+        nforced = sum(1 for p_ in plan if p_[0] == "call")
+        head, tail_ = requests[:nforced][::-1], requests[nforced:]
+        rnd.shuffle(tail_)
+        requests = head + tail_[: (60 if T else 40)]
         rq, ro = ctx.newfile("world_req", "json"), ctx.newfile("world_fresh", "json")
         json.dump(requests, open(rq, "w"))
         env = dict(os.environ, PYTHONPATH=VERIF)
